@@ -270,8 +270,10 @@ impl<F: Float, L: Label + std::fmt::Debug> TreeNode<F, L> {
                 weight_on_left_side += sample_weight;
 
                 // Continue if the next value is equal, so that equal values end up in the same subtree
-                if (sorted_index.sorted_values[i].1 - sorted_index.sorted_values[i + 1].1).abs()
-                    < F::cast(1e-5)
+                // (the difference of two equal infinite values is NaN, so they are compared first)
+                if sorted_index.sorted_values[i].1 == sorted_index.sorted_values[i + 1].1
+                    || (sorted_index.sorted_values[i].1 - sorted_index.sorted_values[i + 1].1).abs()
+                        < F::cast(1e-5)
                 {
                     continue;
                 }
